@@ -268,11 +268,12 @@ pub fn migrate_case(seed: u64, lane: Lane, trace: bool) -> CaseOut {
     }
     // ... and it follows on acknowledgements alone: a server that has been receiving from the
     // client's final address for ten seconds and more and has never sent a single datagram there
-    // has not followed, whatever became of the transfer
+    // has not followed, whatever became of the transfer (only datagrams that arrived intact count:
+    // one the network corrupted authenticates nothing)
     for (ch, c) in &w.eps[0].conns {
         if let Some(cm) = w.mon.conns.get(&(0, *ch)) {
             let moved_at = facts.arrived.get(&final_addr).copied().unwrap_or(0);
-            let heard = cm.paths.get(&final_addr).map_or(0, |p| p.recvd);
+            let heard = cm.paths.get(&final_addr).map_or(0, |p| p.genuine_recvd);
             let spoke = cm.tx_log.iter().any(|x| x.1 == final_addr);
             if final_addr != addr_of(1, 0) && heard > 0 && !spoke && w.now > moved_at + 10_000_000_000 && c.app.lost.is_empty() && !c.c.is_closed() {
                 out.cnt.inc("c15.never_followed");
